@@ -1,6 +1,6 @@
 (* Proofs/BucketFacts: lemmas about Model/Bucket. *)
 From Coq Require Import List NArith ZArith Bool Lia Sorted.
-From Tele Require Import Lib.Bytes Lib.Calendar Lib.SortedMap Model.Bucket Proofs.SortedMapFacts Proofs.CalendarFacts.
+From Tele Require Import Lib.Bytes Lib.Calendar Lib.SortedMap Model.Bucket Proofs.SortedMapFacts.
 Import ListNotations.
 Open Scope N_scope.
 
@@ -813,27 +813,68 @@ Proof.
   - unfold merge_name. rewrite app_length, Hl. lia.
 Qed.
 
-Lemma fmt_date_no_slash day : (-719528 <= day < 2932897)%Z ->
-  ~ In slash (fmt_date day) /\ length (fmt_date day) = 10%nat.
+(* the date rendering consists of digits and dashes, for every day number
+   (no calendar reasoning needed) *)
+Lemma is_digit_48 n : n < 10 -> is_digit (48 + n) = true.
+Proof. intro H. unfold is_digit. rewrite andb_true_iff, !N.leb_le. lia. Qed.
+
+Lemma dec_digits_digits : forall fuel n acc, forallb is_digit acc = true ->
+  forallb is_digit (dec_digits fuel n acc) = true.
 Proof.
-  intro H. destruct (date_roundtrip day H) as [Hp Hl].
-  destruct (parse_date_chars _ _ Hp) as [_ Hc].
+  induction fuel as [|f IH]; intros n acc H; cbn [dec_digits]; [exact H|].
+  destruct (N.ltb_spec n 10).
+  - cbn [forallb]. rewrite is_digit_48 by assumption. exact H.
+  - apply IH. cbn [forallb]. rewrite is_digit_48, H; [reflexivity|]. apply N.mod_lt. discriminate.
+Qed.
+
+Lemma pad_left_aux_digits : forall k s, forallb is_digit s = true -> forallb is_digit (pad_left_aux k s) = true.
+Proof. induction k as [|k IH]; intros s H; simpl; auto. Qed.
+
+Lemma pad_left_aux_length : forall k (s : bytes), length (pad_left_aux k s) = (k + length s)%nat.
+Proof. induction k as [|k IH]; intros s; simpl; [reflexivity|]. rewrite IH. reflexivity. Qed.
+
+Lemma dec_pad_digits w n : forallb is_digit (dec_pad w n) = true.
+Proof.
+  unfold dec_pad, pad_left, dec_of_N. apply pad_left_aux_digits. apply dec_digits_digits. reflexivity.
+Qed.
+
+Lemma dec_pad_length w n : (w <= length (dec_pad w n))%nat.
+Proof. unfold dec_pad, pad_left. rewrite pad_left_aux_length. lia. Qed.
+
+Lemma forallb_app {A} (f : A -> bool) l1 l2 : forallb f (l1 ++ l2) = forallb f l1 && forallb f l2.
+Proof. induction l1 as [|a l1 IH]; simpl; [reflexivity|]. rewrite IH, andb_assoc. reflexivity. Qed.
+
+Lemma digits_date_chars s : forallb is_digit s = true -> forallb date_char s = true.
+Proof.
+  induction s as [|a s IH]; simpl; [reflexivity|]. intro H. apply andb_true_iff in H as [H1 H2].
+  unfold date_char at 1. rewrite H1, IH by exact H2. reflexivity.
+Qed.
+
+Lemma fmt_date_chars day : forallb date_char (fmt_date day) = true /\ (2 < length (fmt_date day))%nat.
+Proof.
+  unfold fmt_date. destruct (civil_from_days day) as [[y m] d]. unfold fmt_ymd. split.
+  - rewrite !forallb_app. rewrite !(digits_date_chars _ (dec_pad_digits _ _)). reflexivity.
+  - rewrite app_length. pose proof (dec_pad_length 4 (Z.to_N y)). lia.
+Qed.
+
+Lemma fmt_date_no_slash day : ~ In slash (fmt_date day) /\ (2 < length (fmt_date day))%nat.
+Proof.
+  destruct (fmt_date_chars day) as [Hc Hl].
   destruct (forallb_no_slash _ _ date_char_facts Hc) as [Hs _]. auto.
 Qed.
 
-Theorem chart_name_good s e : (-719528 <= s < 2932897)%Z -> (-719528 <= e < 2932897)%Z ->
-  good_name (chart_name s e).
+Theorem chart_name_good s e : good_name (chart_name s e).
 Proof.
-  intros Hs He. destruct (fmt_date_no_slash _ Hs) as [S1 S2]. destruct (fmt_date_no_slash _ He) as [E1 E2].
+  destruct (fmt_date_no_slash s) as [S1 S2]. destruct (fmt_date_no_slash e) as [E1 E2].
   unfold chart_name. destruct (Z.eqb s e).
   - apply good_single.
     + intro Hin. apply in_app_or in Hin as [Hin|Hin]; [contradiction | apply json_ext_no_slash; exact Hin].
-    + rewrite app_length, E2. lia.
+    + rewrite app_length. lia.
   - apply good_single.
     + intro Hin. apply in_app_or in Hin as [Hin|Hin]; [contradiction|].
       simpl in Hin. destruct Hin as [Hin|Hin]; [discriminate|].
       apply in_app_or in Hin as [Hin|Hin]; [contradiction | apply json_ext_no_slash; exact Hin].
-    + rewrite app_length, S2. lia.
+    + rewrite app_length. lia.
 Qed.
 
 (* ------------------------- stored paths are images of names (no '/' inside) *)
